@@ -724,6 +724,13 @@ theorem step_noRef (cfg : Cfg) (n : Node) (op : Op) (h : NoRef n) (hop : op ≠ 
         exact noRef_fields rfl rfl rfl h2
       · exact h
     | nop => exact h
+    | sdrop sid =>
+      simp only [step, isSessOp]
+      split
+      · exact h
+      · exact noRef_mono (n := n) (fun i hi => hi)
+          (fun s' hs' he _ => ⟨s', (List.mem_filter.mp hs').1, he, rfl⟩)
+          (fun r' hr' => ⟨r', hr', rfl⟩) h
     | coldreset => exact noRef_fresh _ _
     | fabrecover i => exact noRef_fresh _ _
     | resume rid newRid =>
